@@ -50,6 +50,36 @@ func errResultIsNilConst(ret *ssa.Return) (isNil bool, hasErr bool) {
 	return core.IsNilConst(last), true
 }
 
+// isErrorExpr: the standard of rule R2 for "returns an error": any expression of type error other than the
+// nil constant (that the expression is never nil is C11-R3's obligation, proved there).
+func isErrorExpr(v ssa.Value) bool {
+	if v == nil || core.IsNilConst(v) {
+		return false
+	}
+	if _, isPhi := v.(*ssa.Phi); isPhi {
+		return false
+	}
+	return types.Identical(v.Type(), types.Universe.Lookup("error").Type())
+}
+
+// returnsErrorExprFrom: on paths that start in block from, ret's error result is an error expression
+// (a merged exit returns a φ: only the incoming values reachable from `from` count).
+func returnsErrorExprFrom(ret *ssa.Return, from *ssa.BasicBlock) bool {
+	if _, has := errResultIsNilConst(ret); !has {
+		return false
+	}
+	// the path the search is on already knows (merged exits: the φ inherited a non-nil incoming value)
+	if core.PathNonNil(ret.Results[len(ret.Results)-1]) {
+		return true
+	}
+	for _, v := range phiEdgesFrom(ret.Results[len(ret.Results)-1], from, nil) {
+		if !isErrorExpr(v) {
+			return false
+		}
+	}
+	return true
+}
+
 // nilSuccessSites: the points at which a nil error result of ret is committed: ret itself when the error
 // result is the nil constant; for a merged exit (error result is a φ) the last instruction of every
 // predecessor block whose incoming value is the nil constant (nested φs are followed).
@@ -173,6 +203,32 @@ func runC01(c *core.Ctx) {
 		isSendState := func(st *core.SelState) bool {
 			return st.Dir == types.SendOnly && e.isField(st.Chan, r.WriteQueue)
 		}
+		// the oracle of the path-sensitive searches below: an error expression computed inside a state that did
+		// not enqueue (or in the queue-full arm). That such a state produces an error expression is what the
+		// per-state checks of this rule establish; that the expression is never nil is C11-R3.
+		var failBodies []*ssa.BasicBlock
+		for _, si := range sels {
+			for _, st := range si.States {
+				if st.Body != nil && !isSendState(st) {
+					failBodies = append(failBodies, st.Body)
+				}
+			}
+			if si.Default != nil {
+				failBodies = append(failBodies, si.Default)
+			}
+		}
+		failedStateErr := func(v ssa.Value) bool {
+			in, ok := v.(ssa.Instruction)
+			if !ok || core.IsNilConst(v) || !types.Identical(v.Type(), types.Universe.Lookup("error").Type()) {
+				return false
+			}
+			for _, fb := range failBodies {
+				if fb.Dominates(in.Block()) {
+					return true
+				}
+			}
+			return false
+		}
 		var parts []string
 		for _, si := range sels {
 			c.Instance("R2")
@@ -246,9 +302,9 @@ func runC01(c *core.Ctx) {
 					continue
 				}
 				// non-send state: all reachable returns carry a non-nil error expression, and no send follows
-				bad, path := core.Search(nil, st.Body, func(in ssa.Instruction) core.Action {
+				bad, path := core.SearchAssume(nil, st.Body, func(in ssa.Instruction) core.Action {
 					if ret, ok := in.(*ssa.Return); ok {
-						if isNil, has := errResultIsNilConst(ret); isNil || !has {
+						if !returnsErrorExprFrom(ret, st.Body) {
 							return core.Target
 						}
 						return core.Barrier
@@ -257,7 +313,7 @@ func runC01(c *core.Ctx) {
 						return core.Target
 					}
 					return core.Continue
-				}, nil)
+				}, nil, failedStateErr)
 				c.Check(bad == nil, "R2", name+"/error-return", p.InstrPos(sinfo.Sel),
 					"state that did not enqueue returns a non-nil error expression on every path",
 					"a select state that did not enqueue reaches a success return or another enqueue", p.PathString(path, bad)...)
@@ -267,9 +323,9 @@ func runC01(c *core.Ctx) {
 				if sinfo.Default == nil {
 					c.Unk("R2", name, p.InstrPos(sinfo.Sel), "default arm not identified")
 				} else {
-					bad, path := core.Search(nil, sinfo.Default, func(in ssa.Instruction) core.Action {
+					bad, path := core.SearchAssume(nil, sinfo.Default, func(in ssa.Instruction) core.Action {
 						if ret, ok := in.(*ssa.Return); ok {
-							if isNil, has := errResultIsNilConst(ret); isNil || !has {
+							if !returnsErrorExprFrom(ret, sinfo.Default) {
 								return core.Target
 							}
 							return core.Barrier
@@ -278,7 +334,7 @@ func runC01(c *core.Ctx) {
 							return core.Target
 						}
 						return core.Continue
-					}, nil)
+					}, nil, failedStateErr)
 					c.Check(bad == nil, "R2", name+"/error-return", p.InstrPos(sinfo.Sel),
 						"default arm (queue full) returns a non-nil error expression", "default arm reaches a success return or an enqueue", p.PathString(path, bad)...)
 				}
@@ -297,7 +353,7 @@ func runC01(c *core.Ctx) {
 				for _, site := range nilSuccessSites(ret) {
 					site := site
 					// search from entry to the point where the nil error is committed, avoiding send bodies / plain sends
-					tgt, path := core.Search(nil, f.Blocks[0], func(x ssa.Instruction) core.Action {
+					tgt, path := core.SearchAssume(nil, f.Blocks[0], func(x ssa.Instruction) core.Action {
 						if x == site {
 							return core.Target
 						}
@@ -305,7 +361,7 @@ func runC01(c *core.Ctx) {
 							return core.Barrier
 						}
 						return core.Continue
-					}, func(a, b *ssa.BasicBlock) bool { return !sendEdges[[2]*ssa.BasicBlock{a, b}] })
+					}, func(a, b *ssa.BasicBlock) bool { return !sendEdges[[2]*ssa.BasicBlock{a, b}] }, failedStateErr)
 					c.Check(tgt == nil, "R2", core.FName(E)+"/success-only-after-enqueue", p.InstrPos(site),
 						"success return is reachable only after the payload was enqueued", "a success (nil error) return is reachable without enqueueing the payload", p.PathString(path, tgt)...)
 				}
@@ -434,12 +490,21 @@ func runC01(c *core.Ctx) {
 	c.Rule("R7", "only fresh pool copies enter the write queue (payload whole and unmodified until written)", 2)
 	importObligations(c, runC10, "R7", func(o *core.Obligation) bool { return o.Rule == "R1" || o.Rule == "R3" })
 
-	// ---- R6
+	// ---- R6: every blocking enqueue select offers the same kinds of cases, and so does every non-blocking
+	// one, wherever they live (one function with both modes, or one function per mode)
 	c.Instance("R6")
 	same := true
+	byMode := map[string]string{}
 	for _, s := range sigs {
-		if s != sigs[0] {
-			same = false
+		for _, part := range strings.Split(strings.Trim(s, "[]"), "][") {
+			if part == "" {
+				continue
+			}
+			mode := strings.SplitN(part, " ", 2)[0]
+			if prev, ok := byMode[mode]; ok && prev != part {
+				same = false
+			}
+			byMode[mode] = part
 		}
 	}
 	c.Check(same, "R6", "enqueuer-select-shapes", "", fmt.Sprintf("all %d enqueueing functions: %v", len(sigs), sigs), fmt.Sprintf("enqueueing functions disagree on select shapes: %v", sigs))
